@@ -951,6 +951,7 @@ pub fn c10(rec: &RunRecord) -> Vec<Violation> {
         let Some(state) = &round.snapshot else { continue };
         let res = std::panic::catch_unwind(std::panic::AssertUnwindSafe(|| {
             let mut out = Vec::new();
+            let mut per_flow: Vec<(u64, Vec<u8>, u8)> = Vec::new();
             let mut flow_ids = vec![trippy_core::State::default_flow_id()];
             flow_ids.extend(state.flows().iter().map(|(_, id)| *id));
             for fid in flow_ids {
@@ -964,14 +965,41 @@ pub fn c10(rec: &RunRecord) -> Vec<Violation> {
                     out = hops.iter().map(trippy_core::Hop::ttl).collect();
                     let th_ttl = th.ttl();
                     out.push(th_ttl);
+                } else {
+                    per_flow.push((fid.0, hops.iter().map(trippy_core::Hop::ttl).collect(), th.ttl()));
                 }
             }
-            out
+            (out, per_flow, state.round_flow_id().0)
         }));
-        let Ok(mut ttls) = res else {
+        let Ok((mut ttls, per_flow, round_flow)) = res else {
             v.push(Violation::new("C10", "c10.query-panicked", format!("round {k}: querying the hop table panicked")));
             continue;
         };
+        // the hop table of every flow: a gap-free ascending run from the lowest ttl probed,
+        // every entry carrying its own ttl; the target hop of the flow this round was
+        // attributed to is the one at this round's path length
+        if let Some(lo) = lowest {
+            for (fid, fl, th) in &per_flow {
+                if let Some((i, got)) = fl.iter().enumerate().find(|(i, got)| **got != 0 && **got != lo + *i as u8) {
+                    v.push(Violation::new("C10", "c10.flow-hop-ttl", format!("round {k}: flow {fid}: hop at position {i} carries ttl {got}, expected {}", lo + i as u8)));
+                    break;
+                }
+                // (only while new flows can still be registered: then this round was attributed
+                // to `round_flow` for certain)
+                if *fid == round_flow && state.flows().len() < rec.sc.tracer.max_flows && round.largest_ttl > 0 {
+                    // the ttls this very round probed are probed hops of the flow it went to
+                    let in_round: Vec<u8> = round.probes.iter().filter_map(|p| probe_fields(p).map(|f| f.0)).filter(|t| *t <= round.largest_ttl).collect();
+                    if let Some(t) = in_round.iter().find(|t| fl.get(usize::from(**t - lo)).is_some_and(|got| *got != **t)) {
+                        v.push(Violation::new("C10", "c10.flow-hop-missing", format!("round {k}: went to flow {fid}, whose hop for ttl {t} (probed in this round) does not carry that ttl")));
+                        break;
+                    }
+                    if in_round.contains(&round.largest_ttl) && *th != round.largest_ttl {
+                        v.push(Violation::new("C10", "c10.flow-target-hop", format!("round {k}: flow {fid}: target hop has ttl {th}, the round's path length is {}", round.largest_ttl)));
+                        break;
+                    }
+                }
+            }
+        }
         let target_hop_ttl = ttls.pop().unwrap_or(0);
         match (lowest, highest) {
             (None, _) | (_, 0) => {
@@ -990,10 +1018,10 @@ pub fn c10(rec: &RunRecord) -> Vec<Violation> {
                 } else {
                     for (i, got) in ttls.iter().enumerate() {
                         let ttl = lo + i as u8;
-                        // every ttl between the lowest probed and the reported length was probed
-                        // (probes go out consecutively from first-ttl), so every entry carries
-                        // its own ttl; an entry still at its initial 0 is a gap in the run
-                        if *got != ttl {
+                        // "each probed hop carrying its own TTL": an entry that was never probed
+                        // (a round cut short by the time limit reports the remembered target
+                        // distance as its length) still has no ttl of its own
+                        if *got != ttl && (probed[ttl as usize] || *got != 0) {
                             v.push(Violation::new("C10", "c10.hop-ttl", format!("round {k}: hop at position {i} carries ttl {got}, expected {ttl}")));
                             break;
                         }
@@ -1013,8 +1041,14 @@ pub fn c10(rec: &RunRecord) -> Vec<Violation> {
         } else {
             (0..=k).any(|j| !accepted_in_round(rec, j).is_empty())
         };
-        if !any_accepted_ever && round.largest_ttl != 0 {
+        if !any_accepted_ever && round.largest_ttl != 0 && rec.sc.clear_after_round.is_none() {
             v.push(Violation::new("C10", "c10.length-without-answer", format!("round {k}: path length {} although nothing has answered", round.largest_ttl)));
+        }
+        // the state was cleared right after this round: the table starts afresh
+        if rec.sc.clear_after_round == Some(k as u32) {
+            lowest = None;
+            highest = 0;
+            probed = [false; 256];
         }
     }
     v
@@ -1684,9 +1718,11 @@ fn round_addresses(round: &crate::run::RoundRec, first_ttl: u8) -> Option<Vec<Op
                 }
                 out[pos] = Some(c.host);
             }
-            // failed / skipped probes shift the implementation's positions: such rounds are
-            // held to the remaining clauses only
-            ProbeStatus::Failed(_) | ProbeStatus::Skipped => return None,
+            // a failed probe shifts the implementation's positions: such rounds are held to
+            // the remaining clauses only; a skipped slot (abandoned TCP attempt) is followed by
+            // the re-issued probe with the same ttl and takes no position
+            ProbeStatus::Failed(_) => return None,
+            ProbeStatus::Skipped => {}
             ProbeStatus::NotSent => {}
         }
     }
